@@ -68,7 +68,9 @@ def run_one(args) -> dict:
                         res["problems"].append(f"{pid}: expected a violation containing '{frag}', got {sorted(new_keys)} errors={errors}")
             elif new_keys and not mut.get("allow_others"):
                 res["problems"].append(f"{pid}: unexpected cross-alarm {sorted(new_keys)}")
-            if mut.get("quiet") and errors:
+            # a refactor that moves the code a rule is anchored in may legitimately end as ANALYSIS-ERROR
+            # (exit 2: anchor vanished / floor missed -- never a silent pass, never a VIOLATION)
+            if mut.get("quiet") and errors and not mut.get("allow_analysis_error"):
                 res["problems"].append(f"{pid}: behaviour-preserving variant made the analysis fail: {errors}")
         if res["problems"]:
             res["status"] = "failed"
